@@ -46,6 +46,17 @@ def step : List String → String
         let z : Zlib := { compress := fun p => if p = payload then zpayload else [0xde, 0xad],
                           decompress := fun _ => none }
         let m : Msg := { type, serId := ser, flags, seq, payload, anns, corr }
+        -- the transcription of today's SendingMessage.__init__, run by the PyIR interpreter on the same message
+        -- (PyroProps/C06EncAst.lean proves it equals the model for correlation ids of 16 bytes; a difference shows as " IS!")
+        let isTag : String :=
+          if (match corr with | some c => c.length != 16 | none => false) then "" else
+          let ir := Pyro.C06AstRun.toEncoded (Pyro.C06AstRun.runSendInit
+            (Pyro.C06AstRun.sendCfg { compression := comp == "1", maxSize := max } z corr) Pyro.Gen.C06.sendInitSrc m)
+          match ir, Pyro.C06AstRun.encExpected (encode { compression := comp == "1", maxSize := max } z m) with
+          | some (.ok a), .ok b => if a == b then "" else " IS!"
+          | some (.error a), .error b => if a == b then "" else " IS!"
+          | _, _ => " IS!"
+        (fun (t : String) => t ++ isTag) <|
         match encode { compression := comp == "1", maxSize := max } z m with
         | .ok bs => "ok " ++ bytesToHex bs
         | .error e => "err " ++ encErr e
